@@ -262,6 +262,8 @@ SUTS = {
                 return None
 
             def drain(self, other: "Stack") -> int:
+                if other is self:
+                    return -1
                 n = 0
                 while other.items and len(self.items) < self.limit:
                     self.items.append(other.items.pop())
@@ -308,13 +310,141 @@ SUTS = {
                 return 5
             return x
         ''',
+    # Callable-annotated and unannotated parameters: the factory has to pick callables
+    # (classes, builtin functions, functions of the module, lambdas) from candidate lists
+    "hof": '''
+        from typing import Callable
+
+
+        def apply_twice(func: Callable, value: int) -> str:
+            try:
+                first = func(value)
+            except Exception:
+                return "error"
+            if first is None:
+                return "none"
+            if isinstance(first, bool):
+                return "flag" if first else "noflag"
+            if isinstance(first, int):
+                if first > 10:
+                    return "big"
+                return "small"
+            if isinstance(first, str):
+                return "text:" + first[:3]
+            return "other"
+
+
+        def fold(items: list[int], step, start=0):
+            acc = start
+            for it in items:
+                acc = step(acc, it) if callable(step) else acc + it
+            if acc == 42:
+                return "answer"
+            return acc
+
+
+        def pick(flag: bool, left: int, right: int) -> int:
+            if flag and left > right:
+                return left
+            if right == 17:
+                return -1
+            return right
+
+
+        def compose(f: Callable[[int], int], g: Callable[[int], int], x: int) -> int:
+            y = g(x)
+            if y == x:
+                return f(y) + 1
+            return f(y)
+        ''',
+    # sets of str as module-level state, as object attributes and inside dicts: exact assertions on
+    # them are exported (`assert tagsets_.KNOWN == {...}`, `assert var_1.tags == {...}`)
+    "tagsets": '''
+        KNOWN = {"north", "south", "east", "west"}
+
+
+        class Bag:
+            def __init__(self, n: int) -> None:
+                if n > 2:
+                    self.tags = {"red", "green", "blue", "black"}
+                else:
+                    self.tags = {"cyan", "magenta"}
+                self.count = n
+                self.index = {"a": {"ant", "ape", "asp"}, "b": {"bee", "bat"}}
+
+            def add(self, tag: str) -> int:
+                if tag in self.tags:
+                    return 0
+                self.tags.add(tag)
+                self.count += 1
+                return len(self.tags)
+
+            def initials(self) -> list[str]:
+                return sorted({t[0] for t in self.tags})
+
+
+        def register(name: str) -> bool:
+            if name in KNOWN:
+                return False
+            if len(name) > 3:
+                KNOWN.add(name[:3])
+                return True
+            return False
+        ''',
+    # many small arithmetic functions: far more first-order mutants than a small --maximum-mutants
+    "calc": '''
+        def area(width: int, height: int) -> int:
+            return width * height + 1
+
+
+        def perimeter(width: int, height: int) -> int:
+            return 2 * (width + height) - 3
+
+
+        def scale(value: int, factor: int) -> int:
+            return value * factor - factor + 7
+
+
+        def offset(value: int, delta: int) -> int:
+            return value + delta + 11
+
+
+        def mix(first: int, second: int, third: int) -> int:
+            return first - second * 2 + third * 5 - 13
+
+
+        def clamp(value: int, low: int, high: int) -> int:
+            if value < low:
+                return low - 1
+            if value > high:
+                return high + 1
+            return value * 3
+
+
+        def parity(value: int) -> int:
+            if value % 2 == 0:
+                return value // 2 + 19
+            return value * 3 + 1
+
+
+        def weight(count: int, unit: int) -> int:
+            return count * unit * 2 + count - unit + 23
+        ''',
 }
 
-# (module, algorithm, iterations); the search seed is derived from VERIF_SEED and the job index
+# (module, algorithm, iterations, extra command-line options); the search seed is derived from
+# VERIF_SEED and the job index.  "cap" stands for a small --maximum-mutants (mutant sampling).
+SIMPLE = ["--assertion-generation", "SIMPLE"]
 QUICK_JOBS = [
-    ("hard", "DYNAMOSA", 6), ("acct", "MIO", 60), ("coll", "MOSA", 6), ("shapes", "WHOLE_SUITE", 5),
+    ("hard", "DYNAMOSA", 6, []), ("acct", "MIO", 60, []), ("coll", "MOSA", 6, []),
+    ("shapes", "WHOLE_SUITE", 5, []),
+    ("hof", "DYNAMOSA", 5, SIMPLE), ("tagsets", "MOSA", 5, SIMPLE), ("calc", "WHOLE_SUITE", 5, "cap"),
 ]
 ALGOS_T = [("DYNAMOSA", 8), ("MOSA", 8), ("MIO", 80), ("WHOLE_SUITE", 6), ("RANDOM", 30)]
+# generation-only histories (no test execution): set-up + N random test cases + M mutations/crossovers
+QUICK_FACTORY = [("hof", 40, 120), ("shapes", 25, 60)]
+# mutant selection for a capped mutation analysis: (module, cap)
+QUICK_MUTSEL = [("calc", 12), ("hard", 9)]
 
 SERVER = r'''
 import hashlib, json, os, re, sys, threading, time
@@ -355,11 +485,13 @@ def _seqinfo(seq):
     return [len(items), _sha("\x00".join(sorted(items))), _sha("\x00".join(items))]
 
 def _wrap(name, seqarg):
-    base = getattr(randomness.Random, name)
+    base = getattr(randomness.Random, name, None) or getattr(randomness.Random.__mro__[1], name)
     def method(self, *a, **k):
         if _DEPTH[0]:
             return base(self, *a, **k)
         rec = [name, _site()]
+        if self is not randomness.RNG:
+            rec[0] = name + "~private"  # a private stream (`randomness.Random(x)`), not the global RNG
         if seqarg and a:
             rec += _seqinfo(a[0])
         else:
@@ -375,15 +507,24 @@ def _wrap(name, seqarg):
     method.__name__ = name
     return method
 
-class RecRandom(randomness.Random):
-    pass
-
+# every stream of the code base is a `randomness.Random`: record on the class, so that private
+# streams (e.g. the mutant sampling of FirstOrderMutator) are seen as well
 for _n, _s in (("choice", True), ("choices", True), ("sample", True), ("shuffle", True),
                ("randrange", False), ("randint", False), ("uniform", False), ("gauss", False),
                ("random", False), ("getrandbits", False), ("betavariate", False), ("triangular", False),
                ("normalvariate", False), ("expovariate", False)):
-    setattr(RecRandom, _n, _wrap(_n, _s))
-randomness.RNG.__class__ = RecRandom
+    setattr(randomness.Random, _n, _wrap(_n, _s))
+
+SEEDS = []
+_o_seed = randomness.Random.seed
+def _seed(self, a=None, *rest, **k):
+    # which value seeds which stream, and where: `Random(hash(a_string))` shows up here
+    if not _DEPTH[0]:
+        rec = ["seed" if self is randomness.RNG else "seed~private", _site(), _rep(a)]
+        LOG.append(rec)
+        SEEDS.append([rec[1], a if isinstance(a, int) else _rep(a)])
+    return _o_seed(self, a, *rest, **k)
+randomness.Random.seed = _seed
 
 import pynguin.cli
 import pynguin.generator as gen
@@ -417,16 +558,30 @@ for _n in ("_track_search_metrics", "_generate_assertions", "_minimize", "_expor
 
 _o_execute = ex.TestCaseExecutor.execute
 WALLCLOCK = []
+WAITED = 15.0  # an execution that reports a timeout after waiting this long really ran into the wall-clock limit
 def _execute(self, test_case, *a, **k):
     t0 = time.monotonic()
     r = _o_execute(self, test_case, *a, **k)
     if r.timeout:
         # timeout=True is also how the executor reports e.g. ModuleNotImportedError (deterministic)
         LOG.append(["timeout", test_case.size(), _sha(test_case.to_code())])
-        if time.monotonic() - t0 > 100:
+        if time.monotonic() - t0 > WAITED:
             WALLCLOCK.append([test_case.size(), round(time.monotonic() - t0, 1), test_case.to_code()[:200]])
     return r
 ex.TestCaseExecutor.execute = _execute
+
+
+try:
+    import pynguin.testcase.localsearchtimer as _lst
+    _o_limit = _lst.LocalSearchTimer.limit_reached
+    def _limit(self):
+        r = _o_limit(self)
+        if r:  # the (huge) wall-clock budget of a local search ran out: environment, not the property
+            WALLCLOCK.append(["local-search-time", 0, ""])
+        return r
+    _lst.LocalSearchTimer.limit_reached = _limit
+except Exception:
+    pass
 
 PERTURB = [None]
 _o_join = threading.Thread.join
@@ -453,12 +608,90 @@ def _start(self):
     return _o_start(self)
 threading.Thread.start = _start
 
+def _configure(argv):
+    """What `pynguin.cli.main` does with the command line, up to `set_configuration`."""
+    parsed = pynguin.cli._create_argument_parser().parse_args(pynguin.cli._expand_arguments_if_necessary(argv))
+    gen.set_configuration(parsed.config)
+    return parsed.config
+
+def factory_history(job):
+    """Generation-only history: the set-up of `generator._setup_and_check` (path, constant seeding,
+    import hook, SUT, test cluster, RNG seed), then the chromosome factory of the search: N random test
+    cases, M mutations / crossovers -- no test is executed.  Written to <out>/factory.txt."""
+    import pynguin.configuration as config
+    import pynguin.ga.testcasechromosome as tcc
+    import pynguin.ga.testcasefactory as tcf
+    import pynguin.testcase.testfactory as tf
+    from pynguin.ga.operators.crossover import SinglePointRelativeCrossOver
+    _configure(job["argv"])
+    if not gen._setup_path():
+        return 11
+    provider, dyn = gen._setup_constant_seeding()
+    props = gen._setup_import_hook(dyn)
+    gen._patch_random()
+    if not gen._load_sut(props):
+        return 12
+    with props.instrumentation_tracer.temporarily_disable():
+        cluster = gen._setup_test_cluster()
+    if cluster is None:
+        return 13
+    gen._setup_random_number_generator()
+    factory = tf.TestFactory(cluster, constant_provider=provider)
+    tcfactory = tcf.RandomLengthTestCaseFactory(factory, cluster)
+    pop = [tcc.TestCaseChromosome(tcfactory.get_test_case(), factory) for _ in range(job["n"])]
+    LOG.append(["stage", "population", len(pop), _sha("\x01".join(c.test_case.to_code() for c in pop))])
+    xo = SinglePointRelativeCrossOver()
+    for i in range(job["muts"]):
+        c = pop[randomness.RNG.randrange(len(pop))]
+        if i % 4 == 3:
+            d = pop[randomness.RNG.randrange(len(pop))]
+            if c is not d:
+                a, b = c.clone(), d.clone()
+                xo.cross_over(a, b)
+                pop[pop.index(c)] = a
+                pop[pop.index(d)] = b
+        else:
+            c.mutate()
+    os.makedirs(job["out"], exist_ok=True)
+    with open(os.path.join(job["out"], "factory.txt"), "w") as f:
+        for c in pop:
+            f.write(c.test_case.to_code() + "\n# ----\n")
+    return 0
+
+def mutant_selection(job):
+    """The mutants the configured mutant generator (`generator._setup_mutant_generator`) selects for the
+    module, in execution order.  Written to <out>/mutants.txt; the seeds of all streams to seeds.json."""
+    import ast, importlib, inspect
+    from pynguin.assertion.mutation_analysis.transformer import ParentNodeTransformer
+    cfg = _configure(job["argv"])
+    sys.path.insert(0, cfg.project_path)
+    module = importlib.import_module(cfg.module_name)
+    tree = ParentNodeTransformer.create_ast(inspect.getsource(module))
+    gen._setup_random_number_generator()
+    mutator = gen._setup_mutant_generator()
+    lines = []
+    for mutations, mutant in mutator.mutate(tree, module):
+        m = mutations[0]
+        lines.append("%s %s line %s %s" % (m.operator.__name__, m.visitor_name,
+                                           getattr(m.node, "lineno", "?"), _sha(ast.unparse(mutant))))
+    os.makedirs(job["out"], exist_ok=True)
+    with open(os.path.join(job["out"], "mutants.txt"), "w") as f:
+        f.write("\n".join(lines) + "\n")
+    return 0
+
 def one_job(job):
-    LOG.clear(); STAGES.clear(); WALLCLOCK.clear()
+    LOG.clear(); STAGES.clear(); WALLCLOCK.clear(); SEEDS.clear()
+    t_start = time.monotonic()
     PERTURB[0] = job.get("perturb")
     rc = None
     try:
-        rc = pynguin.cli.main([sys.argv[0], *job["argv"]])
+        mode = job.get("mode", "run")
+        if mode == "factory":
+            rc = factory_history(job)
+        elif mode == "mutsel":
+            rc = mutant_selection(job)
+        else:
+            rc = pynguin.cli.main([sys.argv[0], *job["argv"]])
     except SystemExit as e:
         rc = e.code
     except BaseException as e:
@@ -473,16 +706,29 @@ def one_job(job):
     with open(job["report"], "w") as f:
         json.dump({"rc": rc, "nlog": len(LOG), "log_sha": _sha(json.dumps(LOG)),
                    "timeouts": sum(1 for r in LOG if r[0] == "timeout"), "wallclock_timeouts": WALLCLOCK[:5],
+                   "seeds": SEEDS[:40], "wall_s": round(time.monotonic() - t_start, 1),
                    "hashseed": os.environ.get("PYTHONHASHSEED")}, f)
 
+def _die_with_parent():
+    try:  # Linux: deliver SIGKILL to this process when its parent goes away (PR_SET_PDEATHSIG)
+        import ctypes, signal
+        ctypes.CDLL(None).prctl(1, int(signal.SIGKILL))
+    except Exception:
+        pass
+
 def main():
+    import signal
+    _die_with_parent()
     with open(os.environ["C16_JOBS"]) as f:
         jobs = json.load(f)
+    deadline = float(os.environ.get("C16_JOB_DEADLINE", "900"))
     for job in jobs:
         pid = os.fork()
         if pid == 0:
             code = 0
             try:
+                os.setsid()  # own process group: everything the run starts can be removed with it
+                _die_with_parent()
                 out = os.open(job["report"] + ".out", os.O_WRONLY | os.O_CREAT | os.O_TRUNC)
                 os.dup2(out, 1); os.dup2(out, 2)
                 one_job(job)
@@ -490,7 +736,30 @@ def main():
                 code = 3
             finally:
                 os._exit(code)
-        os.waitpid(pid, 0)
+        t0 = time.monotonic()
+        while True:
+            done, _ = os.waitpid(pid, os.WNOHANG)
+            if done:
+                break
+            if time.monotonic() - t0 > deadline:
+                # the run exceeded its wall-clock deadline (load, a hanging execution): environment
+                try:
+                    os.killpg(pid, signal.SIGKILL)
+                except OSError:
+                    pass
+                os.waitpid(pid, 0)
+                with open(job["report"] + ".log", "w") as f:
+                    json.dump({"log": [], "stages": []}, f)
+                with open(job["report"], "w") as f:
+                    json.dump({"rc": "deadline", "nlog": 0, "log_sha": "", "timeouts": 0, "seeds": [],
+                               "wallclock_timeouts": [["job-deadline", deadline, ""]], "wall_s": deadline,
+                               "hashseed": os.environ.get("PYTHONHASHSEED")}, f)
+                break
+            time.sleep(0.1)
+        try:  # processes the run left behind (executor subprocesses)
+            os.killpg(pid, signal.SIGKILL)
+        except OSError:
+            pass
 
 main()
 '''
@@ -501,6 +770,7 @@ main()
 VARS = [f"var_{i}" for i in range(13)]
 OTHER_NAMES = ["f", "g", "h", "mod_", "Var_1", "_x", "zeta", "été", "A", "var_", "var_1_"]
 _IDENT = re.compile(r"[^\W\d]\w*")
+_ADDRESS = re.compile(r"\bat 0x[0-9a-fA-F]{6,}")
 
 
 class PermFrozenSet(frozenset):
@@ -533,6 +803,116 @@ def stmt_code(s) -> str:
     return f"{s['bound']} = {expr}" if s["bound"] is not None else expr
 
 
+# ---------------------------------------------------------------------------------------------
+# in-process part 2: the text of an exact assertion on a value that contains sets, rendered by the
+# REAL renderer in child interpreters with different PYTHONHASHSEEDs (line protocol, JSON)
+# ---------------------------------------------------------------------------------------------
+RENDER_CHILD = r"""
+import copy, json, os, sys
+sys.path.insert(0, os.environ["C16_SRC"])
+out = os.fdopen(os.dup(1), "w")
+os.dup2(os.open(os.devnull, os.O_WRONLY), 1)
+import libcst as cst
+import pynguin.assertion.assertion as ass
+from pynguin.assertion.assertion_to_ast import assertion_to_cst
+
+MOD = cst.Module(body=[])
+
+def build(e):
+    (k, v), = e.items()
+    if k == "s": return v
+    if k == "i": return int(v)
+    if k == "b": return v.encode("latin-1")
+    if k == "n": return None
+    if k == "t": return bool(v)
+    if k == "L": return [build(x) for x in v]
+    if k == "T": return tuple(build(x) for x in v)
+    if k == "S":
+        r = set()
+        for x in v:
+            r.add(build(x))
+        return r
+    if k == "D": return {build(a): build(b) for a, b in v}
+    raise ValueError(k)
+
+def code(value):
+    # the right-hand side of the exported `assert v == <value>` / `assert v is <value>`
+    stmt = assertion_to_cst(ass.ObjectAssertion("v", value))
+    return MOD.code_for_node(stmt.body[0].test.comparisons[0].comparator)
+
+def tree(v):
+    # structure as the renderer sees it: set members in iteration order, leaves as rendered text
+    t = type(v)
+    if t is list: return {"list": {"elems": [tree(x) for x in v]}}
+    if t is tuple: return {"tuple": {"elems": [tree(x) for x in v]}}
+    if t is set: return {"set": {"elems": [tree(x) for x in list(v)]}}
+    if t is dict: return {"dict": {"keys": [tree(k) for k in v], "vals": [tree(x) for x in v.values()]}}
+    return {"atom": {"text": code(v)}}
+
+for line in sys.stdin:
+    try:
+        value = copy.deepcopy(build(json.loads(line)))  # the trace observer stores a deep copy
+        res = {"code": code(value), "tree": tree(value)}
+    except Exception as e:
+        res = {"err": type(e).__name__ + ": " + str(e)[:200]}
+    out.write(json.dumps(res) + "\n")
+    out.flush()
+"""
+
+WORDS = ["a", "b", "c", "ab", "north", "south", "east", "west", "red", "green", "blue", "été", "Zeta", "zeta",
+         "", " ", "it's", 'say "hi"', "tab\there", "new\nline", "back\\slash", "x" * 30, "0", "None", "var_0",
+         "日本", "\x0c^Q", "k//", "{", "}", ", "]
+
+
+def _enc_atom(rng, hashable_only=True):
+    r = rng.random()
+    if r < 0.62:
+        return {"s": rng.choice(WORDS) + (str(rng.randrange(100)) if rng.random() < 0.3 else "")}
+    if r < 0.8:
+        return {"i": rng.choice([0, 1, 2, 7, 8, 16, -1, -8, 255, 1024, rng.randrange(-10**6, 10**6)])}
+    if r < 0.87:
+        return {"b": rng.choice(["", "a", "ab", "\x00\xff", "north"])}
+    if r < 0.93:
+        return {"n": None}
+    return {"t": rng.random() < 0.5}
+
+
+def _enc_set(rng, kmax=8):
+    n = rng.choice([0, 1, 2, 3, 3, 4, 5, 6, kmax])
+    elems = []
+    for _ in range(n):
+        if rng.random() < 0.12:
+            elems.append({"T": [_enc_atom(rng) for _ in range(rng.choice([0, 1, 2, 3]))]})
+        else:
+            elems.append(_enc_atom(rng))
+    return {"S": elems}
+
+
+def _enc_value(rng, depth=0):
+    r = rng.random()
+    if depth >= 3 or r < 0.45:
+        return _enc_set(rng)
+    if r < 0.55:
+        return _enc_atom(rng)
+    n = rng.choice([0, 1, 2, 2, 3])
+    if r < 0.7:
+        return {"L": [_enc_value(rng, depth + 1) for _ in range(n)]}
+    if r < 0.85:
+        return {"T": [_enc_value(rng, depth + 1) for _ in range(n)]}
+    return {"D": [[_enc_atom(rng), _enc_value(rng, depth + 1)] for _ in range(n)]}
+
+
+def _has_set(e, k=2):
+    (key, v), = e.items()
+    if key == "S":
+        return len(v) >= k
+    if key in ("L", "T"):
+        return any(_has_set(x, k) for x in v)
+    if key == "D":
+        return any(_has_set(b, k) for _, b in v)
+    return False
+
+
 class C16(PropertyCheck):
     prop_id = "C16"
     level = "proof"
@@ -558,6 +938,10 @@ class C16(PropertyCheck):
         "PermFrozenSet (frozenset subclass with a chosen iteration order) stands for hash-seed freedom",
     ]
 
+    def __init__(self, tier, seed):
+        super().__init__(tier, seed)
+        self._seen = {}
+
     # -- generators ------------------------------------------------------------------------------
     def _gen_stmt(self, rng, bound_pool, name_pool):
         bound = rng.choice(bound_pool) if rng.random() < 0.7 else None
@@ -568,9 +952,16 @@ class C16(PropertyCheck):
         return {"bound": bound, "ty": ty, "names": names, "form": form}
 
     def gen_case(self, rng):
-        if rng.random() < 0.06:
+        r = rng.random()
+        if r < 0.06:
             pool = VARS + OTHER_NAMES
             return {"kind": "sort", "names": [rng.choice(pool) for _ in range(rng.randrange(0, 9))]}
+        if r < 0.26:
+            return {"kind": "render", "value": _enc_value(rng)}
+        if r < 0.275:
+            m = rng.choice(["calc", "calc", "hard", "tiny", "strs", "stack"])
+            return {"kind": "mutsel", "module": m, "seed": rng.randrange(0, 1 << 20),
+                    "cap": rng.choice([-1, 0, 1, 3, 5, 8, 12, 20, 40, 10000])}
         nself = rng.choice([0, 1, 2, 3, 3, 4, 4, 5, 6])
         unique = rng.random() < 0.8
         self_stmts = []
@@ -670,8 +1061,107 @@ class C16(PropertyCheck):
             return {"sorted": sorted(case["names"])}
         if case.get("kind") == "pipeline":
             return self._impl_pipeline(case)
+        if case.get("kind") in ("render", "mutsel"):
+            io = self._impl_render(case) if case["kind"] == "render" else self._impl_mutsel(case)
+            self._seen[id(case)] = io
+            return io
         return {"out": self._run_append(case, case["orders"]),
                 "alts": [self._run_append(case, o) for o in case.get("alt_orders", [])]}
+
+    # -- set values in exported assertions: the real renderer under three hash seeds ---------------
+    def _render_hashseeds(self):
+        return [1 + 3 * self.seed, 2 + 3 * self.seed, 3 + 3 * self.seed]
+
+    def _children(self):
+        if getattr(self, "_kids", None) is None:
+            import atexit
+            self._kid_dir = tempfile.mkdtemp(prefix="c16r-")
+            script = os.path.join(self._kid_dir, "render_child.py")
+            with open(script, "w") as f:
+                f.write(RENDER_CHILD)
+            self._kids = []
+            for h in self._render_hashseeds():
+                env = dict(os.environ, C16_SRC=str(vcommon.REPO / "src"), PYTHONHASHSEED=str(h))
+                env.pop("PYTHONPATH", None)
+                self._kids.append(subprocess.Popen([vcommon.PY, script], env=env, stdin=subprocess.PIPE,
+                                                   stdout=subprocess.PIPE, stderr=subprocess.DEVNULL, text=True))
+            atexit.register(self._close_children)
+        return self._kids
+
+    def _close_children(self):
+        for k in getattr(self, "_kids", None) or []:
+            try:
+                k.stdin.close()
+                k.wait(timeout=20)
+            except Exception:
+                k.kill()
+        self._kids = None
+        for d in (getattr(self, "_kid_dir", None), getattr(self, "_sut_dir", None)):
+            if d:
+                shutil.rmtree(d, ignore_errors=True)
+
+    def _impl_render(self, case):
+        kids = self._children()
+        line = json.dumps(case["value"]) + "\n"
+        for k in kids:
+            k.stdin.write(line)
+            k.stdin.flush()
+        res = []
+        for k, h in zip(kids, self._render_hashseeds()):
+            ans = k.stdout.readline()
+            if not ans:
+                raise RuntimeError(f"render child (PYTHONHASHSEED={h}) died")
+            res.append(json.loads(ans))
+        if any("err" in r for r in res):
+            return {"err": sorted({r.get("err", "")[:80] for r in res})}
+        return {"codes": [r["code"] for r in res], "tree": res[0]["tree"], "hashseeds": self._render_hashseeds()}
+
+    # -- mutant selection of a capped mutation analysis, in-process: which streams are created ----
+    def _impl_mutsel(self, case):
+        import ast
+        import importlib
+        import inspect
+        import pynguin.configuration as config
+        import pynguin.generator as gen
+        import pynguin.utils.randomness as randomness
+        from pynguin.assertion.mutation_analysis.transformer import ParentNodeTransformer
+        if getattr(self, "_sut_dir", None) is None:
+            self._sut_dir = tempfile.mkdtemp(prefix="c16m-")
+            for name, src in SUTS.items():
+                with open(os.path.join(self._sut_dir, f"c16sut_{name}.py"), "w") as f:
+                    f.write(textwrap.dedent(src).lstrip())
+            sys.path.insert(0, self._sut_dir)
+            import atexit
+            atexit.register(self._close_children)
+        module = importlib.import_module("c16sut_" + case["module"])
+        out_cfg = config.configuration.test_case_output
+        saved = (config.configuration.seeding.seed, out_cfg.maximum_mutants, out_cfg.maximum_mutation_time)
+        seeds = []
+        o_init = randomness.Random.__init__
+
+        def init(rself, x=None):
+            seeds.append(x if isinstance(x, int) and not isinstance(x, bool) else repr(x))
+            o_init(rself, x)
+        config.configuration.seeding.seed = case["seed"]
+        out_cfg.maximum_mutants = case["cap"]
+        out_cfg.maximum_mutation_time = -1
+        randomness.Random.__init__ = init
+        try:
+            fps = []
+            for _ in range(2):
+                tree = ParentNodeTransformer.create_ast(inspect.getsource(module))
+                mutator = gen._setup_mutant_generator()
+                total = mutator.mutation_count(tree, module)
+                sel = [f"{ms[0].operator.__name__}:{ms[0].visitor_name}:{getattr(ms[0].node, 'lineno', '?')}:"
+                       + hashlib.sha1(ast.unparse(mutant).encode()).hexdigest()[:8]
+                       for ms, mutant in mutator.mutate(tree, module)]
+                fps.append(sel)
+        finally:
+            randomness.Random.__init__ = o_init
+            config.configuration.seeding.seed, out_cfg.maximum_mutants, out_cfg.maximum_mutation_time = saved
+        half = len(seeds) // 2
+        return {"total": total, "selected": len(fps[0]), "seeds": seeds[:half], "seeds_again": seeds[half:],
+                "same_twice": fps[0] == fps[1], "first": fps[0][:3]}
 
     # -- model -----------------------------------------------------------------------------------
     def model_line(self, case):
@@ -679,6 +1169,12 @@ class C16(PropertyCheck):
             return vcommon.jdump({"sort": {"names": case["names"]}})
         if case.get("kind") == "pipeline":
             return None
+        if case.get("kind") in ("render", "mutsel"):
+            # the model is given what the implementation saw (iteration order of the sets / number of mutants)
+            io = self._seen.get(id(case)) or self.impl(case)
+            if case["kind"] == "render":
+                return None if "err" in io else vcommon.jdump({"render": {"v": io["tree"]}})
+            return vcommon.jdump({"subseed": {"seed": case["seed"], "total": io["total"], "cap": case["cap"]}})
         strip = lambda s: {"bound": s["bound"], "ty": s["ty"], "names": s["names"]}
         return vcommon.jdump({"append": {"c": {
             "self": {"stmts": [strip(s) for s in case["self"]["stmts"]], "counter": case["self"]["counter"]},
@@ -688,6 +1184,17 @@ class C16(PropertyCheck):
     def compare(self, case, io, mo):
         if case.get("kind") == "sort":
             return io == mo
+        if case.get("kind") == "render":
+            if "err" in io or "sorted" not in mo:
+                return False
+            # the repaired renderer (elements in the order of their text) or the original one (hash order)
+            if io["codes"][0] == mo["sorted"]:
+                self.count("render:impl-emits-canonical-order")
+                return True
+            self.count("render:impl-emits-hash-order")
+            return io["codes"][0] == mo["hashorder"]
+        if case.get("kind") == "mutsel":
+            return io["seeds"] == mo.get("seeds") and io["seeds_again"] == mo.get("seeds")
         out = io["out"]
         if "err" in out or "err" in mo:
             return out == mo
@@ -704,6 +1211,24 @@ class C16(PropertyCheck):
             return []
         if case.get("kind") == "pipeline":
             return self._oracle_pipeline(case, io)
+        if case.get("kind") == "render":
+            if "err" in io:
+                return []
+            for h, c in zip(io["hashseeds"][1:], io["codes"][1:]):
+                if c != io["codes"][0]:
+                    return [Failure(
+                        {"where": "assertion_to_ast._value_to_cst", "class": "set-rendered-in-hash-order"},
+                        "the text of an exact assertion on a value that contains a set depends on PYTHONHASHSEED: "
+                        f"value {vcommon.jdump(case['value'])[:300]} is written as {io['codes'][0][:200]!r} under "
+                        f"PYTHONHASHSEED={io['hashseeds'][0]} and as {c[:200]!r} under PYTHONHASHSEED={h}",
+                        detail={"hashseeds": io["hashseeds"], "codes": io["codes"]})]
+            return []
+        if case.get("kind") == "mutsel":
+            if not io["same_twice"]:
+                return [Failure({"where": "FirstOrderMutator._select_mutations", "class": "same-seed-different-sample"},
+                                f"the mutant generator of seed {case['seed']} with --maximum-mutants {case['cap']} selects "
+                                f"different mutants of module {case['module']} when asked twice")]
+            return []
         fs = []
         for alt, orders in zip(io["alts"], case.get("alt_orders", [])):
             if alt != io["out"]:
@@ -723,6 +1248,16 @@ class C16(PropertyCheck):
             return vcommon.jdump(case) if len(set(case["names"])) > 1 else None
         if k == "pipeline":
             return vcommon.jdump(case)
+        if k == "render":
+            if "err" in io:
+                self.count("render:not-renderable")
+                return None
+            if len(set(io["codes"])) > 1:
+                self.count("render:differs-between-hashseeds")
+            return vcommon.jdump(case) if _has_set(case["value"]) else None
+        if k == "mutsel":
+            self.count("mutsel:sampled" if io["seeds"] else "mutsel:all-mutants")
+            return vcommon.jdump(case) if io["seeds"] else None
         out = io["out"]
         if "err" in out:
             self.count("append:out-of-draws")
@@ -742,11 +1277,13 @@ class C16(PropertyCheck):
 
     # -- pipeline runs ---------------------------------------------------------------------------
     @staticmethod
-    def _argv(proj, out, module, algorithm, seed, iterations):
-        return ["--project-path", proj, "--module-name", module, "--output-path", out,
-                "--algorithm", algorithm, "--maximum-iterations", str(iterations), "--seed", str(seed),
+    def _argv(proj, out, job):
+        return ["--project-path", proj, "--module-name", job["module"], "--output-path", out,
+                "--algorithm", job["algorithm"], "--maximum-iterations", str(job["iterations"]),
+                "--seed", str(job["seed"]),
                 "--use-master-worker", "False", "--local-search-time", "3600000",
-                "--maximum-test-execution-timeout", "900", "--test-execution-time-per-statement", "300"]
+                "--maximum-test-execution-timeout", "90", "--test-execution-time-per-statement", "30",
+                *job.get("extra", [])]
 
     def _prepare(self, tmp):
         proj = os.path.join(tmp, "proj")
@@ -757,25 +1294,39 @@ class C16(PropertyCheck):
         with open(os.path.join(tmp, "server.py"), "w") as f:
             f.write(SERVER)
 
-    def _run_server(self, tmp, tag, hashseed, jobs):
-        """jobs: list of dict(module, algorithm, seed, iterations, perturb). Returns a report per job."""
+    def _run_server(self, tmp, tag, hashseed, runs):
+        """runs: list of (job, perturb); one interpreter with this PYTHONHASHSEED, one fork per run.
+        Returns a report per run."""
         d = os.path.join(tmp, f"g{tag}")
         os.makedirs(d)
         spec = []
-        for i, j in enumerate(jobs):
+        for i, (j, perturb) in enumerate(runs):
             out = os.path.join(d, f"out{i}")
-            spec.append({"argv": self._argv(os.path.join(tmp, "proj"), out, j["module"], j["algorithm"],
-                                            j["seed"], j["iterations"]),
-                         "report": os.path.join(d, f"rep{i}.json"), "out": out, "perturb": j.get("perturb")})
+            spec.append({"argv": self._argv(os.path.join(tmp, "proj"), out, j),
+                         "report": os.path.join(d, f"rep{i}.json"), "out": out, "perturb": perturb,
+                         "mode": j.get("mode", "run"), "n": j.get("n", 0), "muts": j.get("muts", 0)})
         with open(os.path.join(d, "jobs.json"), "w") as f:
             json.dump(spec, f)
         env = dict(os.environ, C16_SRC=str(vcommon.REPO / "src"), C16_JOBS=os.path.join(d, "jobs.json"),
                    PYTHONHASHSEED=str(hashseed), PYNGUIN_DANGER_AWARE="1")
         env.pop("PYTHONPATH", None)
-        r = subprocess.run([vcommon.PY, os.path.join(tmp, "server.py")], env=env, capture_output=True,
-                           text=True, timeout=5400, cwd=tmp)
+        deadline = int(os.environ.get("C16_JOB_DEADLINE", "900"))
+        env["C16_JOB_DEADLINE"] = str(deadline)
+        proc = subprocess.Popen([vcommon.PY, os.path.join(tmp, "server.py")], env=env, stdout=subprocess.PIPE,
+                                stderr=subprocess.PIPE, text=True, cwd=tmp, start_new_session=True)
+        try:
+            _, err = proc.communicate(timeout=len(runs) * (deadline + 30) + 300)
+        except subprocess.TimeoutExpired:
+            import signal
+            try:
+                os.killpg(proc.pid, signal.SIGKILL)
+            except OSError:
+                pass
+            proc.communicate()
+            raise
+        r = subprocess.CompletedProcess(proc.args, proc.returncode, "", err)
         reps = []
-        for j, sp in zip(jobs, spec):
+        for (j, perturb), sp in zip(runs, spec):
             if not os.path.exists(sp["report"]):
                 tail = ""
                 if os.path.exists(sp["report"] + ".out"):
@@ -785,6 +1336,8 @@ class C16(PropertyCheck):
                                    f"server rc={r.returncode} {r.stderr[-800:]} {tail}")
             with open(sp["report"]) as f:
                 rep = json.load(f)
+            if j.get("mode", "run") != "run" and rep["rc"] not in (0, "deadline"):
+                raise RuntimeError(f"{j.get('mode')} history {j} (PYTHONHASHSEED={hashseed}) failed: {rep['rc']}")
             files = {}
             if os.path.isdir(sp["out"]):
                 for fn in sorted(os.listdir(sp["out"])):
@@ -794,7 +1347,7 @@ class C16(PropertyCheck):
                             files[fn] = f.read().decode("utf-8", "replace")
             rep["files"] = files
             rep["logfile"] = sp["report"] + ".log"
-            rep["variant"] = {"hashseed": hashseed, "perturb": j.get("perturb")}
+            rep["variant"] = {"hashseed": hashseed, "perturb": perturb}
             reps.append(rep)
         return reps
 
@@ -826,9 +1379,32 @@ class C16(PropertyCheck):
             return "execution-timeout(size=%s)" % rec[1]
         return f"{rec[0]}@{re.sub(r':[0-9]+$', '', rec[1])}"
 
+    @staticmethod
+    def _canon_set_displays(files):
+        """The files with the elements of every set display put into a canonical order (None if a file
+        does not parse): equal results = the files differ in nothing but the order inside `{...}`."""
+        import ast
+
+        class Canon(ast.NodeTransformer):
+            def visit_Set(self, node):
+                self.generic_visit(node)
+                node.elts = sorted(node.elts, key=ast.dump)
+                return node
+        out = {}
+        for fn, text in files.items():
+            if not fn.endswith(".py"):
+                out[fn] = text
+                continue
+            try:
+                out[fn] = ast.dump(Canon().visit(ast.parse(text)))
+            except SyntaxError:
+                return None
+        return out
+
     def _judge(self, job, reps):
         """Compare the runs of one configuration. Returns (summary, failures)."""
         base = reps[0]
+        mode = job.get("mode", "run")
         summary = {"identical_files": True, "identical_logs": True, "rcs": [r["rc"] for r in reps],
                    "nlog": base["nlog"], "file_bytes": sum(len(v) for v in base["files"].values())}
         fs = []
@@ -852,85 +1428,152 @@ class C16(PropertyCheck):
             factor = ("schedule" if r["variant"]["perturb"] != base["variant"]["perturb"] else
                       "hashseed" if r["variant"]["hashseed"] != base["variant"]["hashseed"] else "repeat")
             site = self._site_of(div["a"] if div["a"] is not None else div["b"])
-            diff = []
+            if site == "end-of-log" and r["rc"] == base["rc"]:
+                # same RNG history, same suite snapshots up to the export: what differs is the text
+                ca, cb = self._canon_set_displays(base["files"]), self._canon_set_displays(r["files"])
+                if ca is not None and ca == cb:
+                    site = "export:set-display-order"
+            diff, full = [], []
             for fn in sorted(set(base["files"]) | set(r["files"])):
-                diff += list(difflib.unified_diff(base["files"].get(fn, "").splitlines(),
-                                                  r["files"].get(fn, "").splitlines(),
-                                                  f"{fn}@{base['variant']}", f"{fn}@{r['variant']}", lineterm="", n=1))[:30]
+                d = list(difflib.unified_diff(base["files"].get(fn, "").splitlines(),
+                                              r["files"].get(fn, "").splitlines(),
+                                              f"{fn}@{base['variant']}", f"{fn}@{r['variant']}", lineterm="", n=1))
+                diff += d[:30]
+                full += d
+            if any(l[:1] in "+-" and not l.startswith(("+++", "---")) and _ADDRESS.search(l) for l in full):
+                # an exported assertion compares with a text that embeds an object address
+                # (`<function <lambda> at 0x7f…>`): it survives pynguin's flaky-assertion filter only when the
+                # address happens to coincide in the filtering subprocess -- a defect of its own class
+                factor, site = "memory-address", "export:assertion-on-memory-address"
             summary["first_divergence"] = div
+            where = {"run": "pipeline", "factory": "factory-history", "mutsel": "mutant-selection"}[mode]
+            what = {"run": "writes different test files",
+                    "factory": "(set-up and chromosome factory only, no execution: %s random test cases, %s "
+                               "mutations/crossovers) builds different test cases" % (job.get("n"), job.get("muts")),
+                    "mutsel": "(mutant generator of this configuration only) selects different mutants"}[mode]
+            seeds = ""
+            if base.get("seeds") != r.get("seeds"):
+                seeds = f"; PRNG streams were seeded with {base.get('seeds')} vs {r.get('seeds')}"
             fs.append(Failure(
-                {"where": "pipeline", "factor": factor, "first_divergence": site},
+                {"where": where, "factor": factor, "first_divergence": site},
                 f"pynguin --module-name {job['module']} --algorithm {job['algorithm']} --maximum-iterations "
-                f"{job['iterations']} --seed {job['seed']} writes different test files under {base['variant']} and "
-                f"{r['variant']}; first divergent record #{div['index']}: {div['a']} vs {div['b']} "
-                f"(first differing suite snapshot: {div['first_differing_stage']})",
+                f"{job['iterations']} --seed {job['seed']} {' '.join(job.get('extra', []))} {what} under "
+                f"{base['variant']} and {r['variant']}; first divergent record #{div['index']}: {div['a']} vs "
+                f"{div['b']} (first differing suite snapshot: {div['first_differing_stage']}){seeds}; "
+                f"diff: {' | '.join(diff[2:8])[:400]}",
                 case={"kind": "pipeline", "job": job, "variants": [base["variant"], r["variant"]]},
-                detail={"divergence": div, "diff": diff[:60]}))
+                detail={"divergence": div, "diff": diff[:60], "seeds": [base.get("seeds"), r.get("seeds")]}))
             break
         return summary, fs
 
-    def _pipeline(self, jobs, variants, workers):
-        """jobs × variants; variants: list of dict(hashseed, perturb). Returns [(job, reps)]."""
+    def _pipeline(self, plan, workers):
+        """plan: [(job, [variant])], variant = dict(hashseed, perturb).  One server interpreter per
+        (PYTHONHASHSEED, chunk); returns [(job, reps, judgement)]."""
         tmp = tempfile.mkdtemp(prefix="c16-")
         try:
             self._prepare(tmp)
-            nchunks = max(1, min(len(jobs), workers // max(1, len(variants)) or 1))
-            chunks = [jobs[i::nchunks] for i in range(nchunks)]
+            cost = {"run": 10, "factory": 4, "mutsel": 1}
+            by_hash = {}
+            for ji, (job, variants) in enumerate(plan):
+                for vi, v in enumerate(variants):
+                    by_hash.setdefault(v["hashseed"], []).append((ji, vi))
+            total = sum(len(x) for x in by_hash.values())
             tasks = []
-            for vi, v in enumerate(variants):
-                for ci, ch in enumerate(chunks):
-                    tasks.append((vi, ci, v, [dict(j, perturb=v["perturb"]) for j in ch]))
-            with concurrent.futures.ThreadPoolExecutor(max_workers=workers) as ex:
-                results = list(ex.map(lambda t: self._run_server(tmp, f"{t[0]}-{t[1]}", t[2]["hashseed"], t[3]), tasks))
-            per_job = {}
-            for (vi, ci, v, ch), reps in zip(tasks, results):
-                for j, rep in zip(chunks[ci], reps):
-                    per_job.setdefault(vcommon.jdump(j), (j, {}))[1][vi] = rep
+            for h, runs in sorted(by_hash.items()):
+                k = max(1, min(len(runs), round(workers * len(runs) / max(total, 1))))
+                runs = sorted(runs, key=lambda r: -cost[plan[r[0]][0].get("mode", "run")])
+                for c in range(k):
+                    tasks.append((h, runs[c::k]))
+            def serve(t):
+                i, (h, runs) = t
+                return self._run_server(tmp, f"{i}-{h}", h, [(plan[ji][0], plan[ji][1][vi]["perturb"]) for ji, vi in runs])
+            with concurrent.futures.ThreadPoolExecutor(max_workers=max(workers, 1)) as ex:
+                results = list(ex.map(serve, enumerate(tasks)))
+            got = {}
+            for (h, runs), reps in zip(tasks, results):
+                for (ji, vi), rep in zip(runs, reps):
+                    got[ji, vi] = rep
             out = []
-            for key, (j, byv) in per_job.items():
-                reps = [byv[i] for i in range(len(variants))]
-                out.append((j, reps, self._judge(j, reps)))
+            for ji, (job, variants) in enumerate(plan):
+                reps = [got[ji, vi] for vi in range(len(variants))]
+                out.append((job, reps, self._judge(job, reps)))
             return out
         finally:
             shutil.rmtree(tmp, ignore_errors=True)
 
-    def _variants(self):
+    def _plan(self):
+        """The configurations of this run with their variants.  [0] vs [1]: PYTHONHASHSEED only; [0] vs [2]:
+        schedule only (both schedules are semantically neutral sleeps)."""
         h = 1 + 2 * self.seed
-        # both schedules are semantically neutral sleeps; [0] vs [1]: hash seed only, [0] vs [2]: schedule only
-        v = [{"hashseed": h, "perturb": "main-slow"}, {"hashseed": h + 1, "perturb": "main-slow"},
-             {"hashseed": h, "perturb": "thread-slow"}]
-        if self.tier == "thorough":
-            v.append({"hashseed": h + 1000, "perturb": None})
-        return v
-
-    def _jobs(self):
-        if self.tier == "quick":
-            base = QUICK_JOBS
+        quick = self.tier == "quick"
+        cap = ["--maximum-mutants", str(8 + self.seed % 5)]
+        if quick:
+            base = [(m, a, it, cap if x == "cap" else x) for (m, a, it, x) in QUICK_JOBS]
         else:
-            base = [(m, a, it) for m in SUTS for (a, it) in ALGOS_T]
-        reps = 1 if self.tier == "quick" else 2
+            base = []
+            for m in SUTS:
+                for k, (a, it) in enumerate(ALGOS_T):
+                    x = SIMPLE if m == "tagsets" else cap if m == "calc" else [[], SIMPLE, cap][(k + len(base)) % 3]
+                    base.append((m, a, it, x))
+            # every third configuration (rotating with the seed): the full 75 x 4 pipeline runs take far more
+            # than the 15-20 min a thorough tier may use; VERIF_SEED=0,1,2 together cover all of them
+            base = [b for i, b in enumerate(base) if (i + self.seed) % 3 == 0]
         jobs = []
-        for r in range(reps):
-            for i, (m, a, it) in enumerate(base):
-                jobs.append({"module": m, "algorithm": a, "iterations": it,
+        for r in range(1 if quick else 2):
+            for i, (m, a, it, x) in enumerate(base):
+                if r == 1 and m not in ("hof", "tagsets", "calc", "hard"):
+                    continue  # a second search seed only for these modules
+                jobs.append({"module": m, "algorithm": a, "iterations": it, "extra": list(x),
                              "seed": 1 + self.seed * 7919 + 31 * i + 1009 * r})
         n = os.environ.get("VERIF_RUNS")
-        return jobs[:int(n)] if n else jobs
+        jobs = jobs[:int(n)] if n else jobs
+        plan = []
+        for i, j in enumerate(jobs):
+            v = [{"hashseed": h, "perturb": "main-slow"}, {"hashseed": h + 1, "perturb": "main-slow"}]
+            if not quick or (i < 4 and (i + self.seed) % 2 == 0):
+                v.append({"hashseed": h, "perturb": "thread-slow"})
+            if not quick:
+                v.append({"hashseed": h + 1000, "perturb": None})
+            plan.append((j, v))
+        if n is None or int(n) > 0:
+            hv = [{"hashseed": h, "perturb": None}, {"hashseed": h + 1, "perturb": None}]
+            if not quick:
+                hv.append({"hashseed": h + 1000, "perturb": None})
+            fact = QUICK_FACTORY if quick else [(m, 40, 150) for m in SUTS]
+            for i, (m, npop, muts) in enumerate(fact):
+                plan.append(({"mode": "factory", "module": m, "algorithm": "DYNAMOSA", "iterations": 1, "extra": [],
+                              "seed": 11 + self.seed * 104729 + 17 * i, "n": npop, "muts": muts}, hv))
+            sel = QUICK_MUTSEL if quick else [(m, c) for m in SUTS for c in (3, 12)]
+            for i, (m, c) in enumerate(sel):
+                plan.append(({"mode": "mutsel", "module": m, "algorithm": "DYNAMOSA", "iterations": 1,
+                              "extra": ["--maximum-mutants", str(c + self.seed % 3)],
+                              "seed": 5 + self.seed * 613 + i}, hv))
+        return plan
 
     def extra_checks(self):
-        jobs = self._jobs()
-        if not jobs:
+        plan = self._plan()
+        if not plan:
             return []
-        variants = self._variants()
-        workers = int(os.environ.get("VERIF_WORKERS", 6 if self.tier == "quick" else 12))
+        workers = int(os.environ.get("VERIF_WORKERS", 8 if self.tier == "quick" else 12))
         stats = {"configurations": 0, "runs": 0, "identical_files": 0, "identical_logs": 0, "discarded": 0,
-                 "rng_calls": 0, "file_bytes": 0, "nonzero_rc": 0, "variants": variants}
+                 "rng_calls": 0, "file_bytes": 0, "nonzero_rc": 0,
+                 "hashseeds": sorted({v["hashseed"] for _, vs in plan for v in vs}),
+                 "factory_histories": 0, "mutant_selections": 0}
         fs = []
-        for j, reps, (summary, failures) in self._pipeline(jobs, variants, workers):
-            stats["configurations"] += 1
-            stats["runs"] += len(reps)
-            self.count(f"run:{j['algorithm']}", len(reps))
-            self.count(f"module:{j['module']}", len(reps))
+        run_bytes = 0
+        for j, reps, (summary, failures) in self._pipeline(plan, workers):
+            mode = j.get("mode", "run")
+            if mode == "run":
+                stats["configurations"] += 1
+                stats["runs"] += len(reps)
+                self.count(f"run:{j['algorithm']}", len(reps))
+                self.count(f"module:{j['module']}", len(reps))
+                self.count("run-option:" + (" ".join(j.get("extra", [])[:2]) or "(defaults)"), len(reps))
+            else:
+                stats["factory_histories" if mode == "factory" else "mutant_selections"] += len(reps)
+                self.count(f"{mode}:{j['module']}", len(reps))
+            stats.setdefault("wall_s", []).append(
+                [f"{mode}:{j['module']}:{j['algorithm']}", [r.get("wall_s") for r in reps]])
             if "discarded" in summary:
                 stats["discarded"] += 1
                 continue
@@ -940,19 +1583,20 @@ class C16(PropertyCheck):
                 stats.setdefault("benign_log_divergences", []).append(dict(summary["log_divergence"], job=j))
             stats["rng_calls"] += summary["nlog"]
             stats["file_bytes"] += summary["file_bytes"]
+            run_bytes += summary["file_bytes"] if mode == "run" else 0
             stats["nonzero_rc"] += any(rc != 0 for rc in summary["rcs"])
             if summary["identical_files"] and summary["file_bytes"] > 0:
                 self.nontrivial.add(hashlib.sha1(vcommon.jdump(j).encode()).hexdigest())
             fs += failures
-        if stats["configurations"] and stats["file_bytes"] == 0:
+            self.evaluations += len(reps)
+        if stats["configurations"] and run_bytes == 0:
             raise RuntimeError("no pipeline run wrote a test file — the history tie is vacuous")
         self.extra_coverage["real_runs"] = stats
-        self.evaluations += stats["runs"]
         return fs
 
     # replay support for pipeline failures
     def _impl_pipeline(self, case):
-        res = self._pipeline([case["job"]], case["variants"], 2)
+        res = self._pipeline([(case["job"], case["variants"])], 2)
         (j, reps, (summary, failures)) = res[0]
         self._replay_failures = failures
         return {k: summary.get(k) for k in ("identical_files", "identical_logs", "rcs", "first_divergence")}
